@@ -44,6 +44,27 @@ def configurations(rng, tier):
                 if rng.random() < 0.4:
                     extra.append((rng.choice(behs), "cpt", 5, 5))
                 yield "queued-requests", Cfg(behaviour=first, path=path, retries=rng.choice([0, 1]), c_max=206, s_max=206, extra=extra)
+    # 1c. IOCB queue: follow-up requests submitted when the first completes (from its callback, directly or through
+    #     deferred()), with other requests already queued behind it; queued requests that are aborted locally the moment they
+    #     start (too long for a peer without segmentation) with more behind them
+    for first in (behs if thorough else ["ack", "error", "silent"]):
+        for how in ("deferred", "direct"):
+            for nq in (0, 1, 2):
+                extra = [(rng.choice(behs[:4]), "cpt", 5, 5) for _ in range(nq)]
+                fol = [(how, rng.choice(behs[:4]), 5, 5) for _ in range(rng.choice([1, 1, 2]))]
+                yield "queued-requests", Cfg(behaviour=first, path="iocb", retries=0, c_max=206, s_max=206, extra=extra, followups=fol)
+    for npos in range(0, 3):
+        for nbehind in (1, 2, 3):
+            extra = [("ack", "cpt", 5, 5)] * npos + [("ack", "cpt", 400, 5)] + [(rng.choice(["ack", "error"]), "cpt", 5, 5)] * nbehind
+            yield "queued-requests", Cfg(behaviour="ack", path="iocb", retries=0, c_max=206, s_max=50, s_seg="noSegmentation", iam=True, extra=extra)
+    # 1d. timers of other kinds in the scheduler between the transactions' own (an answered request, a long unrelated timer, a
+    #     request that is never answered): every outcome still within its bound
+    for path in ("direct", "iocb"):
+        for think in (0.5, 1.0):
+            for bg in ([60.0], [30.0, 200.0], [0.7, 90.0]):
+                for second in ("silent", "ack", "abort"):
+                    yield "mixed-timers", Cfg(behaviour="ack", think=think, path=path, retries=rng.choice([0, 1, 3]), c_max=206, s_max=206,
+                                              background=bg, extra=[(second, "cpt", 5, 5)] + ([("silent", "cpt", 5, 5)] if rng.random() < 0.3 else []))
     # 2. segmentation boundaries for each max-APDU size
     for L in ([50, 128, 206, 480, 1024, 1476] if thorough else [50, 206, 480]):
         req_sizes = boundary_sizes(L)
